@@ -363,7 +363,8 @@ def rule_g(ctx):
                         continue  # the reference is taken inside a macro expansion (format_args! of a trace macro)
                 kept.append((k, d))
             kinds = sorted({("call:%s" % callee_method(d[0])) if k == "callarg" else k for k, d in kept})
-            if kinds and all(k in ("call:branch", "ret") for k in kinds):
+            # (`r.map(f)`, `r.map_err(f)`, `r.and_then(f)` keep an error an error; their own result is a call site of this rule)
+            if kinds and all(k in ("call:branch", "ret", "call:map", "call:map_err", "call:and_then", "call:inspect", "call:inspect_err") for k in kinds):
                 continue
             root = b.root if b.kind == "Closure" else b.id
             nm = (callee_def(t) or "?").split("::")[-1]
